@@ -11,13 +11,15 @@ use crate::tree::TreeIndex;
 use serde_json::json;
 
 pub fn case(tape: &[u32]) -> CaseOutcome {
-    let mut t = Tape::new(tape);
+    let (aux, main) = split_tape(tape);
+    let mut a = Tape::new(&aux);
+    let mut t = Tape::new(&main);
     let mut cfg = GenCfg::full();
-    cfg.fault = t.chance(1, 3);
+    cfg.fault = a.chance(1, 3);
     cfg.gnode_text = true;
+    let sources = pick_sources(&mut a, 3);
     let program = make_program(&mut t, &cfg);
     let dsl = &program.printed.text;
-    let sources = pick_sources(&mut t, 3);
     let file = match load_valid("C01", dsl) {
         Ok(f) => f,
         Err(o) => return o,
@@ -121,7 +123,7 @@ pub fn case(tape: &[u32]) -> CaseOutcome {
 }
 
 pub fn spec(tier: &str) -> Spec {
-    let mut s = Spec::new("C01", tier, 4_000, 60_000, 700);
+    let mut s = Spec::new("C01", tier, 4_000, 60_000, 1200);
     s.rule = "programs generated over the whole statement/expression grammar (1-8 stanzas, blocks to depth 4, shorthands, globals, one injected run-time fault in a third of them), each executed in strict mode on 1-3 generated/corpus Python trees and compared with an independent reference interpreter (Ok/Err agreement; graphs compared up to node renumbering). Non-trivial: >=1 match executed, >=2 graph nodes or >=1 edge, and >=2 stanzas or block depth >=2. Distinct = fingerprint of (DSL text, sources).".into();
     s.assumptions = vec![
         "tree-sitter's query matching and the regex crate are shared with the implementation (trusted)".into(),
